@@ -7,6 +7,7 @@ import (
 	"fmt"
 	"os"
 	"path/filepath"
+	"strings"
 	"syscall"
 	"testing"
 
@@ -319,7 +320,95 @@ func c07UnTarIndex(c *fw.Case) *c07Op {
 	}
 }
 
-var c07Ops = []func(c *fw.Case) *c07Op{c07Assemble, c07Verify, c07Chop, c07Copy, c07ChunkStream, c07IndexFromFile, c07Tar, c07UnTar, c07UnTarIndex}
+// c07StoreOp: LocalStore.Verify [repair] and LocalStore.Prune are long-running entry points with a context as well. nil
+// after a cancellation means: every invalid chunk was reported (and removed with repair) / every unreferenced chunk
+// and temporary file is gone.
+func c07StoreOp(c *fw.Case) *c07Op {
+	dir := filepath.Join(c.Dir(), "maint.store")
+	r := c.Rand("maint.seed")
+	n := c.Range(1, 4, "maint.n")
+	prune := c.Bool("maint.prune")
+	repair := c.Bool("maint.repair")
+	type obj struct {
+		id         desync.ChunkID
+		data       []byte
+		valid      bool
+		referenced bool
+	}
+	var objs []obj
+	for i, k := 0, c.Range(1, 9, "maint.chunks"); i < k; i++ {
+		b := make([]byte, 1+r.IntN(300))
+		for j := range b {
+			b[j] = byte(r.IntN(256))
+		}
+		objs = append(objs, obj{id: desync.ChunkID(desync.Digest.Sum(b)), data: b, valid: prune || r.IntN(2) == 0, referenced: r.IntN(2) == 0})
+	}
+	keep := map[desync.ChunkID]struct{}{}
+	for _, o := range objs {
+		if o.referenced {
+			keep[o.id] = struct{}{}
+		}
+	}
+	tmp := filepath.Join(dir, "0000", ".tmp-cacnk.1234567")
+	var out bytes.Buffer
+	ls, _ := desync.NewLocalStore(c.Dir(), desync.StoreOptions{})
+	name := "LocalStore.Verify"
+	if prune {
+		name = "LocalStore.Prune"
+	}
+	c.Note("%s n=%d repair=%v objects=%d", name, n, repair, len(objs))
+	return &c07Op{
+		name: name,
+		reset: func() error {
+			os.RemoveAll(dir)
+			out.Reset()
+			for i, o := range objs {
+				f := chunkFile(dir, o.id, false)
+				os.MkdirAll(filepath.Dir(f), 0755)
+				z, _ := desync.Compress(o.data)
+				if !o.valid {
+					z, _ = desync.Compress([]byte(fmt.Sprintf("other data %d", i)))
+				}
+				if err := os.WriteFile(f, z, 0644); err != nil {
+					return err
+				}
+			}
+			os.MkdirAll(filepath.Dir(tmp), 0755)
+			var err error
+			ls, err = desync.NewLocalStore(dir, desync.StoreOptions{})
+			if err != nil {
+				return err
+			}
+			return os.WriteFile(tmp, []byte("partial"), 0644)
+		},
+		run: func(rt *simrt.RT, ctx context.Context) error {
+			rt.YieldIO = true
+			if prune {
+				return ls.Prune(ctx, keep)
+			}
+			return ls.Verify(ctx, n, repair, &out)
+		},
+		complete: func() string {
+			exists := func(p string) bool { _, err := os.Lstat(p); return err == nil }
+			for _, o := range objs {
+				f := chunkFile(dir, o.id, false)
+				switch {
+				case prune && !o.referenced && exists(f):
+					return "unreferenced chunk " + o.id.String()[:8] + " is still in the store"
+				case prune && exists(tmp):
+					return "the abandoned temporary file is still there"
+				case !prune && !o.valid && !strings.Contains(out.String(), o.id.String()):
+					return "invalid chunk " + o.id.String()[:8] + " was not reported"
+				case !prune && !o.valid && repair && exists(f):
+					return "invalid chunk " + o.id.String()[:8] + " was not removed"
+				}
+			}
+			return ""
+		},
+	}
+}
+
+var c07Ops = []func(c *fw.Case) *c07Op{c07Assemble, c07Verify, c07Chop, c07Copy, c07ChunkStream, c07IndexFromFile, c07Tar, c07UnTar, c07UnTarIndex, c07StoreOp}
 
 func runC07(c *fw.Case) {
 	if desyncBin() != "" && c.ChanceAdded(1, procRate(10), "c07.proc") {
